@@ -53,7 +53,7 @@ def run(ctx):
         steps.extend(st)
     nexh = len(steps)
     ctx.exhaustive = True
-    _, behs = ctx.tlc_simulate("ACL", "ACL_sim.cfg", num=100 if quick else 1500, depth=10 if quick else 20)
+    _, behs = ctx.tlc_simulate("ACL", "ACL_sim.cfg", num=100 if quick else 1000, depth=10 if quick else 20)
     for b in behs:
         b[0]["new"] = 1
         steps.extend(b)
@@ -113,3 +113,20 @@ def run(ctx):
         "the first return value of Allow (assigned permission) is not constrained by the statement; differences are counted only",
         "text -> permission for texts no permission prints to (e.g. 256 x 'o' wraps to prohibit) is reported in text_to_perm_notes only",
     ]
+
+
+def replay(ctx, path):
+    """re-run the failing step of a replay file on the current tree (fresh ACL)"""
+    import json
+    st = json.load(open(path))["case"]["step"]
+    st["new"] = 1
+    cases, res = os.path.join(ctx.work, "cases.ndjson"), os.path.join(ctx.work, "res.ndjson")
+    core.write_ndjson(cases, [st])
+    ctx.vh(["C35", "replay", "--in", cases, "--out", res])
+    row = core.read_ndjson(res)[0]
+    ctx.traces += 1
+    ctx.case(["replay", st.get("cells"), st.get("p")], nontrivial=True, sample={"step": st, "result": row})
+    if not row["ok"]:
+        key, f = classify(st, row)
+        ctx.violation(key, "%s %s = %s, statement says %s (table %s)" % (
+            f["entry"], f.get("q", st.get("p")), f["got"][:200], f["want"], st.get("cells")), {"step": st, "result": row})
